@@ -276,6 +276,10 @@ class Exec:
             return Obj(segs[-2], segs[-1], [])
         # zero-sized constants: unit structs of this crate are values, the rest are fn items / markers
         base = basename(txt)
+        # a named constant item of the crate (`const NAME: T = ..;` - the dump prints its initialiser as a body)
+        cb = self.prog.bodies.get(base)
+        if cb is not None and cb.header.startswith('const ') and re.match(r'^[\w:<>\' ,]+$', txt):
+            return self.run_body(cb, [])
         if self.prog.layout.local_structs.get(base) == []:
             return Obj(base, None, [], [])
         return FnItem(txt)
@@ -656,6 +660,11 @@ def run_path(prog, entry, prefix, setup):
         pr.kind, pr.value, pr.error = 'unsupported', None, e
     except Infeasible as e:
         pr.kind, pr.value, pr.error = 'infeasible', None, e
+    except (AttributeError, KeyError, TypeError, IndexError, AssertionError, ValueError) as e:
+        # a shape the executor / a model does not handle: never a verdict
+        import traceback
+        tb = traceback.extract_tb(e.__traceback__)[-1]
+        pr.kind, pr.value, pr.error = 'unsupported', None, Unsupported(f'executor error {type(e).__name__}: {e} at {tb.filename.split("/")[-1]}:{tb.lineno}')
     pr.taken = ex.taken
     pr.decisions = ex.decisions
     pr.pc = ex.pc
